@@ -41,6 +41,7 @@ import (
 	"sort"
 	"strings"
 	"sync"
+	"sync/atomic"
 	"syscall"
 	"testing"
 	"time"
@@ -113,8 +114,34 @@ func TestVFC19Child(t *testing.T) {
 		t.Fatalf("VFHARNESS c19 child: unknown scenario %q", name)
 	}
 	out := &c19Out{w: os.Stdout}
+	c19Beat()
+	go c19Watchdog(out)
 	run(out, raw)
 	out.emit("D", "")
+}
+
+// c19Beat records progress; c19Watchdog reports a hang to the parent (and ends the child) when
+// nothing has recorded progress for c19StepTimeout. The scheduler beats on every event and every
+// release, the scenarios beat between the operations they run outside the scheduler.
+var c19LastBeat atomic.Int64
+
+func c19Beat() { c19LastBeat.Store(time.Now().UnixNano()) }
+
+func c19Watchdog(out *c19Out) {
+	for {
+		time.Sleep(200 * time.Millisecond)
+		if time.Since(time.Unix(0, c19LastBeat.Load())) > c19StepTimeout {
+			c19Hang(out)
+		}
+	}
+}
+
+func c19Hang(out *c19Out) {
+	buf := make([]byte, 1<<20)
+	n := runtime.Stack(buf, true)
+	dump := string(buf[:n])
+	out.emit("H", [2]string{c19HangWhere(dump), c19Tail(dump, 6000)})
+	os.Exit(0)
 }
 
 // ---------------------------------------------------------------------------------------------
@@ -122,7 +149,7 @@ func TestVFC19Child(t *testing.T) {
 
 const (
 	c19StepTimeout  = 6 * time.Second  // child: one scheduler step makes no progress
-	c19ChildTimeout = 90 * time.Second // parent: whole child
+	c19ChildTimeout = 45 * time.Second // parent: whole child
 )
 
 type c19Run struct {
@@ -159,6 +186,8 @@ func c19Spawn(scenario string, raw []byte) c19Run {
 	cmd.Stdout, cmd.Stderr = &so, &se
 	// on the parent's deadline ask the runtime for a goroutine dump instead of killing silently
 	cmd.Cancel = func() error { return cmd.Process.Signal(syscall.SIGQUIT) }
+	// the child must not survive the test process (e.g. when the driver kills it at its deadline)
+	cmd.SysProcAttr = &syscall.SysProcAttr{Pdeathsig: syscall.SIGKILL}
 	cmd.WaitDelay = 5 * time.Second
 	runErr := cmd.Run()
 	r.stdout, r.stderr = so.String(), se.String()
@@ -198,36 +227,49 @@ func c19Check(ctx *vfCtx, scenario string, c any) {
 	if err != nil {
 		panic(err)
 	}
-	var firstHang *c19Run
 	crashes := 0
-	for attempt := 0; attempt < 3; {
-		r := c19Spawn(scenario, raw)
-		if r.hung {
-			// oracle (iv): only a hang that reproduces on two further runs of the same case counts
-			if firstHang == nil {
-				cp := r
-				firstHang = &cp
-			}
-			attempt++
-			continue
+	var r c19Run
+	for {
+		r = c19Spawn(scenario, raw)
+		if r.hung || r.done || c19Crashed(r) {
+			break
 		}
-		if !r.done && !c19Crashed(r) {
-			// neither a verdict nor a recognisable crash of the code under test: infrastructure
-			crashes++
-			if crashes >= 3 {
-				c19Infra("scenario %s: child ended without a verdict: %v\nstdout: %s\nstderr: %s", scenario, r.err, c19Tail(r.stdout, 1500), c19Tail(r.stderr, 3000))
-			}
-			continue
+		// neither a verdict nor a recognisable crash of the code under test: infrastructure
+		crashes++
+		if crashes >= 3 {
+			c19Infra("scenario %s: child ended without a verdict: %v\nstdout: %s\nstderr: %s", scenario, r.err, c19Tail(r.stdout, 1500), c19Tail(r.stderr, 3000))
 		}
-		if firstHang != nil {
-			ctx.Unjudged("C19/slow-run-not-reproduced")
-		}
+	}
+	if !r.hung {
 		c19Transcribe(ctx, scenario, r)
 		return
 	}
-	c19Transcribe(ctx, scenario, *firstHang)
-	ctx.Fail("C19/deadlock/"+scenario+"/"+firstHang.hang,
-		"no progress for %v in three runs of the same case; blocked outside the stubs: %s\n%s", c19StepTimeout, firstHang.hang, c19Tail(firstHang.stderr, 2500))
+	// oracle (iv): a hang counts only if it reproduces on two further runs of the same case
+	// (run side by side to save time); otherwise the case is judged on a run that finished.
+	var again [2]c19Run
+	var wg sync.WaitGroup
+	for i := range again {
+		wg.Add(1)
+		go func(i int) {
+			defer wg.Done()
+			again[i] = c19Spawn(scenario, raw)
+		}(i)
+	}
+	wg.Wait()
+	for _, a := range again {
+		if !a.hung && (a.done || c19Crashed(a)) {
+			ctx.Unjudged("C19/slow-run-not-reproduced")
+			c19Transcribe(ctx, scenario, a)
+			return
+		}
+	}
+	if !again[0].hung || !again[1].hung {
+		ctx.Unjudged("C19/slow-run-not-reproduced")
+		return
+	}
+	c19Transcribe(ctx, scenario, r)
+	ctx.Fail("C19/deadlock/"+scenario+"/"+r.hang,
+		"no progress for %v in three runs of the same case; blocked outside the stubs: %s\n%s", c19StepTimeout, r.hang, c19Tail(r.stderr, 2500))
 }
 
 // c19Infra ends the test process in a way the driver classes as inconclusive (exit status != 0
@@ -424,7 +466,7 @@ func c19HangWhere(dump string) string {
 				state = state[:k]
 			}
 		}
-		if state == "running" || strings.Contains(g, "c19Sched).park") || strings.Contains(g, "c19Sched).await") {
+		if state == "running" || strings.Contains(g, "c19Sched).park") || strings.Contains(g, "c19Sched).await") || strings.Contains(g, "c19Watchdog") {
 			continue
 		}
 		fn := vfPanicFunc([]byte(g))
@@ -521,6 +563,7 @@ func (s *c19Sched) park(gid int, kind, key string, info any) any {
 func (s *c19Sched) notify(gid int, kind string) { s.events <- c19Event{Gid: gid, Kind: kind} }
 
 func (s *c19Sched) take(ev c19Event, on func(c19Event)) {
+	c19Beat()
 	if ev.Point != nil {
 		if _, dup := s.parked[ev.Point.Key]; dup {
 			s.out.Fail("C19/harness/duplicate-point", "two goroutines parked under the key %s", ev.Point.Key)
@@ -575,13 +618,7 @@ func (s *c19Sched) await(want map[int]int, on func(c19Event)) {
 	}
 }
 
-func (s *c19Sched) hang() {
-	buf := make([]byte, 1<<20)
-	n := runtime.Stack(buf, true)
-	dump := string(buf[:n])
-	s.out.emit("H", [2]string{c19HangWhere(dump), c19Tail(dump, 6000)})
-	os.Exit(0)
-}
+func (s *c19Sched) hang() { c19Hang(s.out) }
 
 // pick removes the next set of points to release from the parked set, according to the schedule
 // (pick = index of the first point in key order, width = how many consecutive points). When the
@@ -624,7 +661,10 @@ func (s *c19Sched) pick() []*c19Point {
 	return sel
 }
 
-func (p *c19Point) release(v any) { p.rel <- v }
+func (p *c19Point) release(v any) {
+	c19Beat()
+	p.rel <- v
+}
 
 // c19Go starts a scenario goroutine whose panics become findings instead of killing the child.
 func c19Go(out *c19Out, s *c19Sched, gid int, body func()) {
